@@ -164,7 +164,10 @@ class UnimodalPdf(DensityEstimator):
         x = linspace(lwr, upr, 1000)
         p = self(x)
 
-        mu = simpson(p * x, x=x)
+        # normalise by the integral over the same grid, and integrate about the
+        # mode, so that quadrature error isn't multiplied by the location of the data
+        p /= simpson(p, x=x)
+        mu = self.mode + simpson(p * (x - self.mode), x=x)
         var = simpson(p * (x - mu) ** 2, x=x)
         skw = simpson(p * (x - mu) ** 3, x=x) / var**1.5
         kur = (simpson(p * (x - mu) ** 4, x=x) / var**2) - 3.0
